@@ -90,6 +90,11 @@ HttpHdrRangeSpec::parseInit(const char *field, int flen)
                 if (!httpHeaderParseOffset(p, &last_pos) || !known_spec(last_pos))
                     return false;
 
+                // last_pos + 1 (below) must not overflow; no representation
+                // has a byte at position INT64_MAX, so nothing is lost here
+                if (last_pos == INT64_MAX)
+                    --last_pos;
+
                 // RFC 2616 s14.35.1 MUST: last-byte-pos >= first-byte-pos
                 if (last_pos < offset) {
                     debugs(64, 2, "invalid (last-byte-pos < first-byte-pos) range-spec near: " << field);
